@@ -2,7 +2,7 @@
 # evaluate every delivered seed that has no meta.json yet; 3 at a time
 cd /verif
 todo=()
-for d in /tmp/seed-C*/seed/A /tmp/seed-C*/seed/B /tmp/seed-C*/seed/C /tmp/seed-C*/seed/D /tmp/seed-C*/seed/E /tmp/seed-C*/seed/F /tmp/seed-C*/seed/G; do
+for d in /tmp/seed-C*/seed/A /tmp/seed-C*/seed/B /tmp/seed-C*/seed/C /tmp/seed-C*/seed/D /tmp/seed-C*/seed/E /tmp/seed-C*/seed/F /tmp/seed-C*/seed/G /tmp/seed-C*/seed/H; do
   [ -f $d/patch.diff ] && [ -f $d/demo.c ] || continue
   p=$(echo $d | sed 's#/tmp/seed-\(C[0-9]*\)/seed/\(.\)#\1#'); v=$(basename $d)
   [ -f /verif/seeded/$p-$v/meta.json ] && continue
